@@ -27,7 +27,7 @@ class Case:
 def _run_shard(args):
     binp, backend, seed, text, mode = args
     pr = subprocess.Popen([binp, mode, backend], stdin=subprocess.PIPE, stdout=subprocess.PIPE, stderr=subprocess.PIPE, text=True,
-                          env=dict(ENV, VERIF_SEED=str(seed), TSS_SERVER_BIN=os.environ.get("TSS_SERVER_BIN", ""),
+                          env=dict(ENV, VERIF_SEED=str(seed), TSS_SERVER_BIN=os.environ.get("TSS_SERVER_BIN", ""), TSS_SERVER_BIN_RELEASE=os.environ.get("TSS_SERVER_BIN_RELEASE", ""),
                                    # the in-memory runs are made the way an operator debugging the server would run it: every
                                    # log statement of the code under test is formatted (and thrown away)
                                    **({"TSS_LOG": "trace"} if backend == "inmem" else {})))
